@@ -191,6 +191,17 @@ def run(P, R, tier):
     for need in ('intersects', 'covers_overlaps'):
         if need not in meth:
             raise AnalysisError(f'C03: _NumbaRtree.{need} not found')
+    # the query methods as a whole, by evaluation; the structural rules below (order-type evaluation of the node / leaf classification in up to 3 dimensions,
+    # cursor discipline, pairing) add dimensions and diagnostics, but when the evaluation decided, a form they do not recognise is not an analysis error
+    queries_decided = query_small_scope(P, R, NR, tier)
+
+    def structural(fn, *a, **k):
+        try:
+            fn(*a, **k)
+        except AnalysisError as e_:
+            if not queries_decided:
+                raise
+            R.notes.append(f'structural query rule not applicable to the present form ({e_}); the query methods are decided by evaluation')
     # traversal function = the self.<m>(query) call whose result is unpacked into two names in both query methods
     trav = None
     for c in astq.own_calls(meth['intersects']):
@@ -198,20 +209,40 @@ def run(P, R, tier):
         if r and r[0] == 'func' and r[1].cls is NR and isinstance(getattr(c, '_parent', None), ast.Assign) \
                 and isinstance(c._parent.targets[0], ast.Tuple) and len(c._parent.targets[0].elts) == 2:
             trav = r[1]
-    if trav is None:
+    if trav is None and not queries_decided:
         raise AnalysisError('C03: traversal helper (covered ranges, candidate ranges) not found')
     dims = (1, 2, 3) if tier == 'thorough' else (1, 2)
-    node_level(P, R, trav, dims)
-    leaf_level(P, R, meth['intersects'], trav, dims, kind='intersects')
-    leaf_level(P, R, meth['covers_overlaps'], trav, dims, kind='covers_overlaps')
+    if trav is not None:
+        structural(node_level, P, R, trav, dims)
+        structural(leaf_level, P, R, meth['intersects'], trav, dims, kind='intersects')
+        structural(leaf_level, P, R, meth['covers_overlaps'], trav, dims, kind='covers_overlaps')
     builder(P, R, HR)
     parent_union(P, R, HR.members['_build_hilbert_rtree'][1])
     tree_arith(P, R, HR, NR, meth)
     leaf_coverage(P, R, HR)
     build_totality(P, R, HR)
-    for m in (meth['intersects'], meth['covers_overlaps']):
-        cursor_discipline(P, R, m)
-        pairing(P, R, m)
+    # GeometryArray.sindex indexes `self.bounds`: an element without finite coordinates must arrive as a NaN box (the only thing the tree treats as "no box");
+    # (inf, inf, -inf, -inf) passes the NaN tests and is reported as covered.  The bounds kernels are decided by C13's small-scope evaluation (called directly:
+    # C13 forwards C03, a forward here would be a cycle)
+    from rules import C13 as _C13
+    sub13 = type(R)(R.prop, R.tier)
+    try:
+        _C13.kernel_rules(P, sub13, tier)
+    except AnalysisError as e_:
+        if not __import__('report').unlisted(sub13.obs):
+            raise
+    n13 = 0
+    for o in sub13.obs:
+        if o.rule == 'C13.a':
+            n13 += 1
+            R._add('C03.c', (o.path, o.site.split('::')[-1]), None, o.status, '[C13.a] boxes handed to the index are NaN exactly for elements without finite coordinates: ' + o.detail, construct=o.construct, nontrivial=o.nontrivial)
+    R.floor('C03.c', 'bounds-kernel obligations (C13.a)', n13, 4)
+    # cursor discipline and range pairing are idiom rules over the emit loops: they are consulted only when the evaluation of the query methods abstained
+    # (a helper that copies the keys itself is a form they do not know; judged by evaluation it is either right or reported with a counterexample)
+    if not queries_decided:
+        for m in (meth['intersects'], meth['covers_overlaps']):
+            cursor_discipline(P, R, m)
+            pairing(P, R, m)
     # total_bounds = root row
     tb = HR.members.get('total_bounds')
     if tb:
@@ -752,6 +783,125 @@ def leaf_page_small_scope(P, R, HR):
     R.check(not bad, 'C03.d', f, page_loop, f'every leaf box is the union of the valid rows of its page, NaN when the page has none ({total} pages)',
             f'the leaf box differs from the union of the valid rows of its page on {len(bad)} of {total} pages, e.g. {bad[:2]}: queries and total_bounds are answered from wrong boxes',
             construct='leaf page box small-scope', counterexamples=bad[:5])
+    return True
+
+
+def _spec_tree(rows, keys, ps, n):
+    """The array representation the builder must produce for the stored rows (already permuted by `keys`): one leaf per page, parents = union of valid children."""
+    import math
+    nan = float('nan')
+    N = len(rows)
+    num_pages = max(1, math.ceil(N / ps))
+    depth = math.ceil(math.log2(num_pages)) if num_pages > 1 else 0
+    np2 = 2 ** depth
+    tl = 2 * np2 - 1
+    ls = tl - np2
+    tree = [[nan] * (2 * n) for _ in range(tl)]
+
+    def union(bs):
+        v = [b for b in bs if not any(x != x for x in b)]
+        if not v:
+            return [nan] * (2 * n)
+        return [min(b[d] for b in v) for d in range(n)] + [max(b[d + n] for b in v) for d in range(n)]
+    for pg in range(num_pages):
+        tree[ls + pg] = union(rows[pg * ps:(pg + 1) * ps])
+    for node in range(ls - 1, -1, -1):
+        tree[node] = union([tree[2 * node + 1], tree[2 * node + 2]])
+    return tree
+
+
+def query_small_scope(P, R, NR, tier):
+    """C03.a/b (exhaustive within the scope): `_NumbaRtree.intersects` and `.covers_overlaps` are interpreted by E-VEC on every tree of up to 3 rows (4 in the
+    thorough tier) of one-dimensional boxes over {0, 1, 2} and NaN rows, page sizes 1..3, stored in reversed key order, for every query box lo <= hi over
+    {0, 1, 2}, plus a sample of two-dimensional trees.  intersects must report each valid row whose box overlaps the closed query exactly once and nothing else;
+    covers_overlaps must split exactly that set into the rows inside the query and the rest.  Returns True when decided."""
+    import itertools as _it
+    import veceval
+    nan = float('nan')
+    mi, mc = NR.members.get('intersects'), NR.members.get('covers_overlaps')
+    if not mi or not mc:
+        return False
+    fi, fc = mi[1], mc[1]
+    vals = (0, 1, 2)
+    boxes1 = [[lo, hi] for lo in vals for hi in vals if lo <= hi] + [[nan, nan]]
+    queries1 = [(lo, hi) for lo in vals for hi in vals if lo <= hi]
+    thorough = tier == 'thorough'
+    maxn = 3 if thorough else 2
+    few = [[0, 0], [1, 2], [0, 2], [nan, nan]]
+    cases = []
+    for N in range(1, maxn + 1):
+        for rows in _it.product(boxes1, repeat=N):
+            for ps in ((1, 2, 3) if thorough else (1, 2)):
+                if ps > N + 1:
+                    continue
+                cases.append((1, [list(r) for r in rows], ps, queries1))
+    # larger trees (3..5 rows on 2..5 pages: two and three levels) with fewer kinds of rows
+    qsub = queries1 if thorough else [(0, 0), (1, 2), (0, 2)]
+    for N, kinds in (((4, few), (5, few[1:])) if thorough else ((3, few), (5, [few[1], few[3]]))):
+        for rows in _it.product(kinds, repeat=N):
+            for ps in ((1, 2) if thorough or N == 3 else (2,)):
+                cases.append((1, [list(r) for r in rows], ps, qsub))
+    b2 = [[0, 0, 1, 1], [1, 1, 2, 2], [0, 2, 0, 2], [2, 0, 2, 1], [nan] * 4, [1, 0, 1, 2]]
+    q2 = [(0, 0, 1, 1), (1, 1, 2, 2), (0, 0, 2, 2), (2, 2, 2, 2), (0, 1, 0, 1)]
+    for rows in (_it.permutations(b2, 4) if thorough else _it.combinations(b2, 4)):
+        for ps in ((1, 2, 3) if thorough else (1, 2)):
+            cases.append((2, [list(r) for r in rows], ps, q2 if thorough else q2[:3]))
+    bad, total, undec = [], 0, None
+    for n, rows, ps, queries in cases:
+        N = len(rows)
+        keys = list(range(N - 1, -1, -1))
+        stored = [list(rows[k]) for k in keys]
+        me = veceval.Stub()
+        me._bounds, me._keys, me._page_size, me._bounds_tree = stored, list(keys), ps, _spec_tree(stored, keys, ps, n)
+        for q in queries:
+            qb = tuple(float(x) for x in q)
+            want_i, want_c, want_o = [], [], []
+            for k, b in enumerate(rows):
+                if any(x != x for x in b):
+                    continue
+                if all(b[d + n] >= qb[d] and b[d] <= qb[d + n] for d in range(n)):
+                    want_i.append(k)
+                    if all(b[d] >= qb[d] and b[d + n] <= qb[d + n] for d in range(n)):
+                        want_c.append(k)
+                    else:
+                        want_o.append(k)
+            for f_, kind in ((fi, 'intersects'), (fc, 'covers_overlaps')):
+                total += 1
+                ev = veceval.VecEval(P, f_, {f_.params[1]: qb, 'self': me}, N)
+                ev.ncols = 2 * n
+                try:
+                    ev.block(f_.node.body)
+                    got = None
+                except veceval.Returned as r_:
+                    got = r_.value
+                except veceval.Unsupported as e_:
+                    undec = f'{kind}: {e_}'
+                    break
+                except (IndexError, TypeError, ValueError, ZeroDivisionError, KeyError, AttributeError) as e_:
+                    got = f'error {type(e_).__name__}: {e_}'
+                if kind == 'intersects':
+                    ok = isinstance(got, list) and sorted(got) == want_i
+                    want = want_i
+                else:
+                    ok = isinstance(got, tuple) and len(got) == 2 and all(isinstance(x, list) for x in got) and sorted(got[0]) == want_c and sorted(got[1]) == want_o
+                    want = (want_c, want_o)
+                if not ok and len(bad) < 40:
+                    bad.append({'call': kind, 'rows (lo.., hi..)': [[None if x != x else x for x in r] for r in rows], 'page_size': ps, 'query': q,
+                                'returned': got if not isinstance(got, str) else got[:80], 'wanted': want})
+                elif not ok:
+                    bad.append(None)
+            if undec:
+                break
+        if undec:
+            break
+    if undec:
+        R.abstain('C03.a', fi, None, f'the query methods use a construct the small-scope evaluator does not model ({undec})', construct='R-tree queries small-scope')
+        return False
+    R.count('typed_ops', total)
+    R.exhaustive_sites[f'C03.a/b R-tree queries: all 1-d trees of <= {maxn} rows over {{0,1,2}} + NaN rows (up to {maxn + 3} rows over 3-4 kinds), page sizes 1..3, all queries lo <= hi; 2-d sample'] = True
+    real = [b for b in bad if b]
+    R.check(not bad, 'C03.a', fi, None, f'intersects / covers_overlaps return exactly the overlapping valid rows, each once, split into covered and partial ({total} queries)',
+            f'the query methods differ from the exact answer on {len(bad)} of {total} queries, e.g. {real[:2]}', construct='R-tree queries small-scope', counterexamples=real[:5])
     return True
 
 
